@@ -1,12 +1,366 @@
-// Package c17 decides C17 (see /verif/DESIGN.md §7).
+// Package c17 decides C17: lazy mode produces on demand and on the idle interval, never loses a wake-up.
 package c17
 
-import "verifharness/vk"
+import (
+	"context"
+	"fmt"
+	"math/rand"
+	"sync"
+	"time"
+
+	"verifharness/vk"
+	"verifharness/world"
+)
 
 // Level is the verification level claimed for this property.
 const Level = "exploration"
 
+// Case is one timing scenario.
+type Case struct {
+	ID      int    `json:"id"`
+	Kind    string `json:"kind"` // inflight | ondemand | idle | normal
+	BlockMs int    `json:"block_interval_ms"`
+	Ratio   int    `json:"idle_to_block_ratio"`
+	ProdPct int    `json:"production_duration_pct_of_block"`
+	Offsets []int  `json:"notification_offsets_pct_of_block"`
+	Storm   bool   `json:"notification_storm"`
+}
+
+func (c Case) key() string {
+	return fmt.Sprintf("%s b%d r%d p%d %v s%v", c.Kind, c.BlockMs, c.Ratio, c.ProdPct, c.Offsets, c.Storm)
+}
+
+// recorder replaces the production function: it logs starts and ends and can hold a production in flight.
+type recorder struct {
+	mu     sync.Mutex
+	starts []time.Time
+	ends   []time.Time
+	dur    time.Duration
+	hold   chan struct{} // when non-nil, a production blocks until it can receive
+	cond   *sync.Cond
+}
+
+func newRecorder(dur time.Duration) *recorder {
+	r := &recorder{dur: dur}
+	r.cond = sync.NewCond(&r.mu)
+	return r
+}
+
+func (r *recorder) publish(ctx context.Context) error {
+	r.mu.Lock()
+	r.starts = append(r.starts, time.Now())
+	hold := r.hold
+	r.cond.Broadcast()
+	r.mu.Unlock()
+	if hold != nil {
+		select {
+		case <-hold:
+		case <-ctx.Done():
+		}
+	} else if r.dur > 0 {
+		select {
+		case <-time.After(r.dur):
+		case <-ctx.Done():
+		}
+	}
+	r.mu.Lock()
+	r.ends = append(r.ends, time.Now())
+	r.cond.Broadcast()
+	r.mu.Unlock()
+	return nil
+}
+
+func (r *recorder) nStarts() int {
+	r.mu.Lock()
+	defer r.mu.Unlock()
+	return len(r.starts)
+}
+
+// waitStarts waits until at least n productions have started; false = watchdog.
+func (r *recorder) waitStarts(n int, d time.Duration) bool {
+	deadline := time.Now().Add(d)
+	for {
+		if r.nStarts() >= n {
+			return true
+		}
+		if time.Now().After(deadline) {
+			return false
+		}
+		time.Sleep(200 * time.Microsecond)
+	}
+}
+
+func (r *recorder) waitEnds(n int, d time.Duration) bool {
+	deadline := time.Now().Add(d)
+	for {
+		r.mu.Lock()
+		k := len(r.ends)
+		r.mu.Unlock()
+		if k >= n {
+			return true
+		}
+		if time.Now().After(deadline) {
+			return false
+		}
+		time.Sleep(200 * time.Microsecond)
+	}
+}
+
+const lostWatchdog = 15 * time.Second
+
+func startNode(ctx context.Context, c Case, rec *recorder) (*world.Node, chan struct{}, error) {
+	block := time.Duration(c.BlockMs) * time.Millisecond
+	lazy := time.Duration(c.Ratio) * block
+	if c.Kind == "inflight" {
+		lazy = time.Hour
+	}
+	n, err := world.NewNode(ctx, world.NodeOpts{Aggregator: true, Lazy: c.Kind != "normal", BlockTime: block, LazyInterval: lazy},
+		world.NewKeys("proposer"), world.NewMemDS(world.NewImage()), world.NewExecDouble(), world.NewSeqDouble(), world.NewDADouble(), nil)
+	if err != nil {
+		return nil, nil, err
+	}
+	n.M.VerifSetPublishBlock(rec.publish)
+	done := make(chan struct{})
+	errCh := make(chan error, 1)
+	go func() {
+		n.M.AggregationLoop(ctx, errCh)
+		close(done)
+	}()
+	return n, done, nil
+}
+
+func run(r *vk.Run, c Case) {
+	ctx, cancel := context.WithCancel(context.Background())
+	block := time.Duration(c.BlockMs) * time.Millisecond
+	rec := newRecorder(block * time.Duration(c.ProdPct) / 100)
+	if c.Kind == "inflight" {
+		rec.hold = make(chan struct{})
+	}
+	n, done, err := startNode(ctx, c, rec)
+	if err != nil {
+		cancel()
+		r.Violation("startup", err.Error(), c)
+		return
+	}
+	defer func() {
+		cancel()
+		if rec.hold != nil {
+			close(rec.hold)
+		}
+		select {
+		case <-done:
+		case <-time.After(lostWatchdog):
+			r.Inconclusive("aggregation loop did not stop within the watchdog")
+		}
+	}()
+	wit := func(extra string) any {
+		rec.mu.Lock()
+		defer rec.mu.Unlock()
+		var rel []float64
+		for _, s := range rec.starts {
+			rel = append(rel, float64(s.Sub(rec.starts[0]).Microseconds())/1000)
+		}
+		return map[string]any{"case": c, "production_starts_ms": rel, "note": extra}
+	}
+	switch c.Kind {
+	case "inflight":
+		// production i is held in flight; a notification arrives; after release a further production must start
+		if !rec.waitStarts(1, lostWatchdog) {
+			r.Inconclusive("first production never started")
+			return
+		}
+		for i, off := range c.Offsets {
+			have := rec.nStarts()
+			// notification(s) while production `have` is in flight
+			time.Sleep(block * time.Duration(off) / 100)
+			n.M.NotifyNewTransactions()
+			if off%2 == 1 {
+				n.M.NotifyNewTransactions() // a second one right behind
+			}
+			rec.hold <- struct{}{} // release the production in flight
+			r.Hit("no-lost-wakeup")
+			if !rec.waitStarts(have+1, lostWatchdog) {
+				r.Violation("no-lost-wakeup", fmt.Sprintf("a notification arrived while production #%d was in flight (offset %d%% of the block interval); the idle interval is 1 h; no further production started within %v after that production finished", have, off, lostWatchdog), wit(fmt.Sprintf("round %d", i)))
+				return
+			}
+			r.Count("inflight_notifications_followed_by_block", 1)
+		}
+		// and without a notification nothing more is produced (idle interval 1 h): observe two block intervals
+		have := rec.nStarts()
+		rec.hold <- struct{}{}
+		time.Sleep(3 * block)
+		r.Hit("no-spurious-block")
+		if rec.nStarts() > have {
+			r.Violation("no-spurious-block", "a block was produced in lazy mode without a notification and long before the idle interval", wit(""))
+		}
+	case "ondemand":
+		if !rec.waitStarts(1, lostWatchdog) || !rec.waitEnds(1, lostWatchdog) {
+			r.Inconclusive("first production did not finish")
+			return
+		}
+		early, late, lost := 0, 0, 0
+		for _, off := range c.Offsets {
+			have := rec.nStarts()
+			rec.mu.Lock()
+			prevStart := rec.starts[have-1]
+			rec.mu.Unlock()
+			time.Sleep(block * time.Duration(off) / 100)
+			if rec.nStarts() != have {
+				continue // the idle timer produced meanwhile; this sample says nothing
+			}
+			t0 := time.Now()
+			n.M.NotifyNewTransactions()
+			if !rec.waitStarts(have+1, lostWatchdog) {
+				lost++
+				break
+			}
+			rec.mu.Lock()
+			st := rec.starts[have]
+			rec.mu.Unlock()
+			r.Hit("on-demand")
+			lat := st.Sub(t0)
+			gap := st.Sub(prevStart)
+			r.Count("ondemand_samples", 1)
+			if gap < block/2 {
+				early++
+			}
+			// one block interval, plus a production that may have been in flight, plus generous scheduling slack
+			if lat > 3*block+rec.dur+50*time.Millisecond {
+				late++
+			}
+			rec.waitEnds(have+1, lostWatchdog)
+		}
+		if lost > 0 {
+			r.Violation("on-demand", "a notification in lazy mode was not followed by a block within the watchdog", wit(""))
+			return
+		}
+		r.Hit("min-gap")
+		if early >= 3 {
+			r.Violation("min-gap", fmt.Sprintf("%d of %d on-demand blocks started less than half a block interval after the previous block started", early, len(c.Offsets)), wit(""))
+		} else if early > 0 {
+			r.Count("isolated_early_gaps_not_judged", int64(early))
+		}
+		// "within one block interval" is only meaningful when the idle timer is far away
+		if c.Ratio >= 20 {
+			r.Hit("on-demand-latency")
+			if late >= 3 {
+				r.Violation("on-demand-latency", fmt.Sprintf("%d of %d notifications were followed by a block only after more than three block intervals", late, len(c.Offsets)), wit(""))
+			} else if late > 0 {
+				r.Count("isolated_late_blocks_not_judged", int64(late))
+			}
+		}
+	case "idle", "normal":
+		interval := block
+		if c.Kind == "idle" {
+			interval = time.Duration(c.Ratio) * block
+		}
+		if !rec.waitStarts(1, lostWatchdog) {
+			r.Inconclusive("first production never started")
+			return
+		}
+		stop := make(chan struct{})
+		if c.Storm {
+			go func() {
+				for {
+					select {
+					case <-stop:
+						return
+					default:
+						n.M.NotifyNewTransactions()
+						time.Sleep(500 * time.Microsecond)
+					}
+				}
+			}()
+		}
+		window := 24 * interval
+		t0 := time.Now()
+		have := rec.nStarts()
+		time.Sleep(window)
+		got := rec.nStarts() - have
+		elapsed := time.Since(t0)
+		close(stop)
+		nominal := int(elapsed / interval)
+		r.Hit("cadence")
+		r.Count("cadence_blocks_observed", int64(got))
+		// timers never fire early: more blocks than elapsed/interval (+2) cannot come from load
+		if got > nominal+2 {
+			r.Violation("cadence-upper", fmt.Sprintf("%d blocks in %v with an interval of %v (at most %d expected)", got, elapsed, interval, nominal+2), wit(""))
+		}
+		if got < nominal/3 {
+			if got == 0 {
+				r.Violation("cadence-lower", fmt.Sprintf("no block in %v with an interval of %v", elapsed, interval), wit(""))
+			} else {
+				r.Inconclusive(fmt.Sprintf("only %d blocks in %v at interval %v (machine load?)", got, elapsed, interval))
+			}
+		}
+	}
+	r.Eval(c.key(), len(c.Offsets) > 0 || c.Storm, c)
+}
+
 // Run is the check entry point.
 func Run(r *vk.Run) {
-	r.Rule = "not implemented yet"
+	world.Silence()
+	r.Rule = "the real AggregationLoop with the production function replaced by a recorder (the package's own test seam); scenarios: (inflight) lazy mode, idle interval 1 h, a production is held in flight, notifications arrive at swept offsets, after release a further production must start; (ondemand) lazy mode, block interval 20|50 ms, idle/block ratio 2|4|20, production duration 0|50|200 % of the block interval, 8 notifications at swept offsets: each must be followed by a block, gaps below half a block interval and latencies above three block intervals are judged only when they occur in >= 3 of 8 samples; (idle) no notifications, ratio 1|2|4: block count over 24 idle intervals; (normal) normal mode with and without a notification storm: block count over 24 block intervals. non-trivial = at least one notification; distinct by parameter tuple"
+	r.Assume("decisions rest on real time only where load can merely make the implementation look better (timers never fire early; a production that does not start within 15 s although the idle interval is 1 h was not going to start); isolated early/late samples are counted, not judged")
+	rng := r.Rand("cases")
+	var cases []Case
+	id := 0
+	add := func(c Case) { c.ID = id; id++; cases = append(cases, c) }
+	sweeps := r.N(2, 12)
+	for k := 0; k < sweeps; k++ {
+		for _, b := range []int{10, 25} {
+			var offs []int
+			for j := 0; j < 6; j++ {
+				offs = append(offs, rng.Intn(200))
+			}
+			add(Case{Kind: "inflight", BlockMs: b, Ratio: 0, Offsets: offs})
+		}
+	}
+	for k := 0; k < r.N(1, 6); k++ {
+		for _, b := range []int{20, 50} {
+			for _, ratio := range []int{2, 4, 20} {
+				for _, pp := range []int{0, 50, 200} {
+					var offs []int
+					for j := 0; j < 8; j++ {
+						if j%8 < 5 {
+							offs = append(offs, 5+rng.Intn(36)) // soon after the previous block started
+						} else {
+							offs = append(offs, 60+rng.Intn(120))
+						}
+					}
+					rng.Shuffle(len(offs), func(a, b int) { offs[a], offs[b] = offs[b], offs[a] })
+					add(Case{Kind: "ondemand", BlockMs: b, Ratio: ratio, ProdPct: pp, Offsets: offs})
+				}
+			}
+		}
+	}
+	for k := 0; k < r.N(1, 4); k++ {
+		for _, ratio := range []int{1, 2, 4} {
+			add(Case{Kind: "idle", BlockMs: 10, Ratio: ratio, ProdPct: []int{0, 50}[k%2]})
+		}
+		add(Case{Kind: "normal", BlockMs: 20, Storm: false})
+		add(Case{Kind: "normal", BlockMs: 20, Storm: true})
+		add(Case{Kind: "normal", BlockMs: 10, Storm: true, ProdPct: 50})
+	}
+	var wg sync.WaitGroup
+	ch := make(chan Case)
+	for w := 0; w < 6; w++ {
+		wg.Add(1)
+		go func() {
+			defer wg.Done()
+			for c := range ch {
+				run(r, c)
+			}
+		}()
+	}
+	for _, c := range cases {
+		ch <- c
+	}
+	close(ch)
+	wg.Wait()
+	r.Require("no-lost-wakeup", 10)
+	r.Require("on-demand", 40)
+	r.Require("cadence", 4)
 }
+
+var _ = rand.Int
